@@ -143,7 +143,16 @@ pub enum Policy {
     /// as `Stall`, but the victim is suspended at its `nth` (0-based) scheduling point of any kind
     /// inside its first call of kind `kind` (a `CallKind` code): everybody else runs on until
     /// nobody can make progress, then the victim finishes the call on what it had read before
-    StallCall { victim: u8, kind: u8, nth: u8, stay: u8 },
+    /// `hold` > 0: the victim is released after the others have executed `16 * hold` points
+    /// (or earlier when nobody else can make progress), i.e. while traffic is still flowing
+    StallCall {
+        victim: u8,
+        kind: u8,
+        nth: u8,
+        stay: u8,
+        #[serde(default)]
+        hold: u8,
+    },
 }
 
 #[derive(Clone, Debug, serde::Serialize, serde::Deserialize, PartialEq, Eq)]
@@ -281,6 +290,7 @@ struct State {
     step: u64,
     last_change: u64,
     changes_total: u64,
+    stall_release_at: Option<u64>,
     cfg: ExecCfg,
     byte_pos: usize,
     decisions: u64,
@@ -371,6 +381,7 @@ impl State {
             step: 0,
             last_change: 0,
             changes_total: 0,
+            stall_release_at: None,
             cfg: ExecCfg::default(),
             byte_pos: 0,
             decisions: 0,
@@ -483,6 +494,14 @@ impl State {
         }
         if cands.is_empty() {
             return None;
+        }
+        if let Some(t) = self.stall_release_at {
+            if self.step >= t {
+                self.stall_release_at = None;
+                for th in self.threads.iter_mut() {
+                    th.stalled = false;
+                }
+            }
         }
         if cands.iter().any(|i| self.threads[*i].stalled) {
             // a stalled thread stays suspended while any other thread can make progress
@@ -837,11 +856,13 @@ impl Sched {
             }
         }
         st.threads[me].call_points += 1;
-        if let Policy::StallCall { victim, kind, nth, .. } = &st.cfg.schedule.policy {
+        if let Policy::StallCall { victim, kind, nth, hold, .. } = &st.cfg.schedule.policy {
             let th = &st.threads[me];
             if *victim as usize == me && th.activity.kind == *kind && !th.stall_done && th.call_points == *nth as u32 + 1 {
+                let release = if *hold > 0 { Some(st.step + 16 * *hold as u64) } else { None };
                 st.threads[me].stalled = true;
                 st.threads[me].stall_done = true;
+                st.stall_release_at = release;
             }
         }
         if let Some((v, k)) = st.cfg.freeze {
